@@ -320,6 +320,32 @@ def _density_checks(ctx, dist, ref, cls, args, info):
             if (lo < x < hi):
                 ctx.viol(f"density-differs-from-closed-form:{cls}", {**info, "x": x, "declared": p, "closed_form": w})
                 return False
+    # a sibling instance with the same leading parameter but different other parameters must not change this
+    # instance's density (class-level or incompletely keyed caches), and must itself agree with its closed form
+    if len(args) >= 2 and cls not in ("DistNormalTrunc", "DistTriangular", "DistUniform", "DistDiscreteUniform"):
+        from pydsol.core.streams import MersenneTwister
+        from pydsol.core import distributions as D
+        before = [dist.probability_density(x) for x in pts[2:9]]
+        for k in range(1, len(args)):
+            sargs = list(args)
+            sargs[k] = sargs[k] * 3 if not (cls == "DistErlang" and k == 1) else sargs[k] + 2
+            try:
+                sib = getattr(D, cls)(MersenneTwister(1), *sargs)
+                sref, _ = _ref(cls, sargs)
+            except Exception:
+                continue
+            for q in (0.1, 0.5, 0.9):
+                x = float(sref.ppf(q))
+                ctx.count("sibling_density_points")
+                p, w = sib.probability_density(x), float(sref.pdf(x))
+                if w > 1e-290 and math.isfinite(w) and abs(p - w) > 1e-7 * w:
+                    ctx.viol(f"density-differs-from-closed-form:{cls}", {**info, "sibling_args": sargs, "x": x, "declared": p,
+                                                                         "closed_form": w, "note": "second instance in the same process"})
+                    return False
+        after = [dist.probability_density(x) for x in pts[2:9]]
+        if [float(a).hex() for a in after] != [float(b).hex() for b in before]:
+            ctx.viol(f"density-changed-by-another-instance:{cls}", {**info, "before": before, "after": after})
+            return False
     # boundary and outside points: no raise; exactly zero outside the support
     edge = [v for v in (lo, hi) if math.isfinite(v)] + ([args[1]] if cls == "DistTriangular" else [])
     for x in edge:
